@@ -161,6 +161,7 @@ pub fn parse_runs(text: &str) -> Result<Vec<RunScript>, String> {
               "rr" => Policy::RoundRobin,
               "rw" => Policy::RandomWalk,
               "fixed" => Policy::Fixed(Vec::new()),
+              "os" => Policy::Os,
               p if p.starts_with("pct") => Policy::Pct(p[3..].parse().map_err(|_| err("pct depth".to_string()))?),
               _ => return Err(err(format!("unknown policy {}", v))),
             }
